@@ -119,6 +119,7 @@ pub fn c07_alphabet() -> Vec<(&'static str, Sym)> {
     vec![
         ("announce A h1 explicit", Sym::Fresh(0, "ann 1 1111 valid")),
         ("announce A h1 implied", Sym::Fresh(0, "ann 1 implied valid")),
+        ("announce B h1 implied_port=1 with port 7777", Sym::Fresh(1, "ann 1 implied+7777 valid")),
         ("announce B h1 explicit (same port number)", Sym::Fresh(1, "ann 1 1111 valid")),
         ("announce v6 h1 explicit", Sym::Fresh(2, "ann 1 6666 valid")),
         ("announce A h2 explicit", Sym::Fresh(0, "ann 2 1111 valid")),
